@@ -14,6 +14,39 @@ _ADD = re.compile(r"(core::num::<impl [ui]\d+>::(wrapping_add|overflowing_add|ch
 _SUB = re.compile(r"(core::num::<impl [ui]\d+>::(wrapping_sub|overflowing_sub|checked_sub)|core::ops::arith::Sub(<.*>)?>::sub)$")
 
 
+PROG = [None]          # set by core.Ctx; lets lin() look into one-expression helpers of the analysed crates
+_BODIES = {}
+
+
+def _pure_body(name, nargs):
+    prog = PROG[0]
+    if prog is None:
+        return None
+    key = (id(prog), name)
+    if key not in _BODIES:
+        out = None
+        f = prog.fns.get(name)
+        if f is not None and f.bkind == "fn" and f.arg_count == nargs and 1 <= nargs <= 3 and len(f.live_blocks()) <= 3:
+            calls = [c for b, t, c in f.calls()]
+            if all(c and (_ADD.search(c) or _SUB.search(c)) for c in calls):
+                e = f.local_expr(0, 10)
+                def ok(x):
+                    return not (isinstance(x, tuple) and x and x[0] == "local") and all(ok(y) for y in x if isinstance(y, tuple)) if isinstance(x, tuple) else True
+                # only helpers that *compute* (a sum or difference); plain getters stay visible as calls
+                if ok(e) and (e[0] in ("bin", "checked") and e[1] in ("Add", "Sub") or (e[0] == "call" and (_ADD.search(str(e[1])) or _SUB.search(str(e[1]))))):
+                    out = e
+        _BODIES[key] = out
+    return _BODIES[key]
+
+
+def _subst_args(e, args):
+    if isinstance(e, tuple) and e and e[0] == "arg" and isinstance(e[1], int) and 1 <= e[1] <= len(args):
+        return args[e[1] - 1]
+    if isinstance(e, tuple):
+        return tuple(_subst_args(x, args) if isinstance(x, tuple) else x for x in e)
+    return e
+
+
 def _merge(a, b, sign=1):
     c = (a[0] + sign * b[0]) % MOD
     d = dict(a[1])
@@ -49,6 +82,10 @@ def lin(e, name=None):
         if not b[1]:
             return ((a[0] * b[0]) % MOD, {s: (c * b[0]) % MOD for s, c in a[1].items()})
     if k == "call" and e[1]:
+        body = _pure_body(e[1], len(e[2]))
+        if body is not None:
+            # a one-expression helper of the crate (`Span::end(&self) = self.offs.0 + self.len`): its value is its body
+            return lin(_subst_args(body, e[2]), name)
         if _ADD.search(e[1]) and len(e[2]) == 2:
             return _merge(lin(e[2][0], name), lin(e[2][1], name), 1)
         if _SUB.search(e[1]) and len(e[2]) == 2:
